@@ -497,6 +497,19 @@ func (k *kitGRPCClient) AcceptOnce() error {
 	return err
 }
 
+// FlashListeners: n brokered listeners on the host side, each closed at once (accepted for an id and given up again
+// before anything else happens).
+func (k *kitGRPCClient) FlashListeners(n int) error {
+	for i := 0; i < n; i++ {
+		ln, err := k.broker.Accept(k.broker.NextId())
+		if err != nil {
+			return err
+		}
+		ln.Close()
+	}
+	return nil
+}
+
 // DupAdvert: the plugin advertises one brokered id twice; the host never asks for it.
 func (k *kitGRPCClient) DupAdvert() error { return k.Cmd("listen-same", 2) }
 func (k *kitRPCClient) DupAdvert() error  { return k.Cmd("dial-same", 2) }
